@@ -40,7 +40,8 @@ type behaviour struct {
 	Legacy bool    `json:"legacy"`
 	Op     string  `json:"op,omitempty"`      // fault mode: Set | Del | App
 	FailAt string  `json:"fail_at,omitempty"` // fault mode: "<store>.<Op>" whose first call fails once
-	Cached bool    `json:"cached,omitempty"`  // fault mode: the old value is already in the front cache // generated from the model of the code before the per-key lock repair
+	Cached bool    `json:"cached,omitempty"`
+	Key    string  `json:"key,omitempty"` // tier mode: the exact key to classify (default: the category's sample key)  // fault mode: the old value is already in the front cache // generated from the model of the code before the per-key lock repair
 	Steps  []hstep `json:"steps"`
 }
 
@@ -618,6 +619,9 @@ func driveTier(beh behaviour) *fw.Trace {
 	for _, op := range ops {
 		r := newRig(beh.Cat, true, true)
 		key := r.key + ":" + op
+		if beh.Key != "" {
+			key = beh.Key // the configured prefix itself, or the prefix plus a suffix
+		}
 		before := func() int { return len(r.cache.Log()) + len(r.pers.Log()) + len(r.shared.Log()) }
 		_ = before
 		switch op {
@@ -795,6 +799,15 @@ func main() {
 				out = append(out, fw.MustJSON(behaviour{Cat: c, Mode: "xnode", Op: "Set"}))
 				for i := 0; i < nx; i++ {
 					out = append(out, fw.MustJSON(behaviour{Cat: c, Mode: "xnode", Op: "App", Seed: i}))
+				}
+			}
+			// every configured key prefix: the prefix itself as a whole key (several entries ARE whole keys,
+			// e.g. tunnox:mappings:list) and the prefix with a suffix must land in the category's tiers
+			dc := hybrid.DefaultConfig()
+			for cat, list := range map[string][]string{"persistent": dc.PersistentPrefixes, "shared": dc.SharedPrefixes, "sharedPersistent": dc.SharedPersistentPrefixes, "runtime": {"tunnox:session:", "tunnox:jwt:", "tunnox:temp:"}} {
+				for _, pre := range list {
+					out = append(out, fw.MustJSON(behaviour{Cat: cat, Mode: "tier", Key: pre}))
+					out = append(out, fw.MustJSON(behaviour{Cat: cat, Mode: "tier", Key: pre + "x1"}))
 				}
 			}
 			for _, c := range []string{"runtime", "persistent", "shared", "sharedPersistent"} {
